@@ -73,6 +73,10 @@ class CursorTranslator(Translator):
             t = n["inner"][0].get("type", {}) if n.get("inner") else {}
             q = t.get("desugaredQualType") or t.get("qualType")
         q = q.replace("const ", "").strip()
+        for td, base in (("uint8_t", "unsigned char"), ("int8_t", "signed char"), ("uint16_t", "unsigned short"), ("int16_t", "short"),
+                         ("uint32_t", "unsigned int"), ("int32_t", "int"), ("uint64_t", "unsigned long"), ("int64_t", "long")):
+            if q == td or q.startswith(td + "[") or q.startswith(td + " ["):
+                q = base + q[len(td):]
         from .ktrans import INT_TYPES
         if q in INT_TYPES:
             return INT_TYPES[q][0] // 8
@@ -390,6 +394,16 @@ class CursorTranslator(Translator):
                 else:
                     self.path_types[a.lv[1]] = ct
                     Translator.write(self, a.lv, E(nm, lo, hi, atom=True), st)
+            # objects the call stores to behind the caller's back (h[5]: per call site, {path: (input name, ctype)}): e.g. errno, or the
+            # header fields `_msg_unpack` fills in
+            if len(h) > 5 and k0 < len(h[5]):
+                for path, (pn, ct) in h[5][k0].items():
+                    if pn not in self.used_inputs:
+                        self.used_inputs.append(pn)
+                    self.input_types[pn] = ct
+                    lo, hi = trange(ct)
+                    self.path_types[path] = ct
+                    Translator.write(self, ("path", path), E(pn, lo, hi, atom=True), st)
             # one input per call SITE (two calls of the same function return two different results)
             sites = self.spec.setdefault("_sites", {}).setdefault(fn, [])
             sid = n.get("id")
